@@ -23,6 +23,7 @@ type ConcCase struct {
 	Init    []Op      `json:"init"`
 	Clients [][]Op    `json:"clients"`
 	Final   bool      `json:"final"`            // read every key back after the concurrent phase
+	Tail    []Op      `json:"tail,omitempty"`   // executed by client 0 after the final read-back (gives the crash simulation crash points after it)
 	Reopen  bool      `json:"reopen,omitempty"` // then Close, Open and read everything again: it must equal what was read before Close
 	Dir     string    `json:"dir,omitempty"`    // crashsim: run in this directory (kept), log every invoke/ack
 	Walk    bool      `json:"walk,omitempty"`   // C14: after the final read-back run a collection pass to quiescence and compare the roots with the readable keys
@@ -143,7 +144,7 @@ func concExec(c ConcCase, choices []int32) (RunOut, *concRun) {
 			cr.written[o.ID] = o
 		}
 	}
-	for _, cl := range c.Clients {
+	for _, cl := range append([][]Op{c.Tail}, c.Clients...) {
 		for _, o := range cl {
 			if o.ID != 0 {
 				cr.written[o.ID] = o
@@ -189,6 +190,9 @@ func concExec(c ConcCase, choices []int32) (RunOut, *concRun) {
 				cr.do(0, Op{K: "get", Key: k})
 			}
 			cr.do(0, Op{K: "keys"})
+		}
+		for _, o := range c.Tail {
+			cr.do(0, o)
 		}
 		if c.Walk {
 			sr := &seqRun{c: SeqCase{Prop: c.Prop}, w: w, m: refmodel.New(), a: cr.a, idx: &valueIndex{}, probes: map[string]uint64{}, faults: map[string]uint64{}}
